@@ -31,6 +31,7 @@ type Query {
   label(prefix: String!, upper: Boolean = false): String
   thing: Thing
   things: [Thing]
+  mixedThings: [Thing]
   node: Node
   nodes: [Node]
   when: Time
@@ -240,6 +241,12 @@ func (q *Query) Thing() interface{} { return q.Items[0] }
 // Things mixes members.
 func (q *Query) Things() []interface{} {
 	return []interface{}{q.Items[0], &Other{ID: "o1", Note: "note"}, q.Items[1]}
+}
+
+// MixedThings holds members as struct VALUES next to pointers of the same Go types (an application that copies some of its
+// records): whichever form a type was first met in, both are values of the member type.
+func (q *Query) MixedThings() []interface{} {
+	return []interface{}{*q.Items[1], &Other{ID: "o3", Note: "ptr"}, Other{ID: "o4", Note: "val"}, q.Items[0]}
 }
 
 // Node returns an interface implementer.
@@ -562,6 +569,7 @@ var Requests = []struct {
 	{`{ thing { __typename ... on Item { id size } ... on Other { note } } }`, nil},
 	{`{ things { __typename ... on Item { id } ... on Other { id note } } }`, nil},
 	{`{ node { __typename id ... on Other { note } } }`, nil},
+	{`{ mixedThings { __typename ... on Item { id size } ... on Other { id note } } }`, nil},
 	{`{ nodes { __typename id ...F } } fragment F on Item { size tags }`, nil},
 	{`{ self { self { name items { id } } } }`, nil},
 	{`{ fail name }`, nil},
